@@ -6,17 +6,20 @@
 (*   Call [p, op = "Create", c, name, raw, tp]   CreateMapping / create command by client c of *)
 (*                        the full domain `raw` (name = its canonical lower-case form); tp is   *)
 (*                        the target port chosen by the driver, unique per create call          *)
-(*   Ret  [p, op = "Create", ok, id, faulted]   faulted: the driver made a storage operation   *)
-(*                        of this very call fail                                                *)
+(*   Ret  [p, op = "Create", ok, id, faulted, exp]   faulted: the driver made a storage        *)
+(*                        operation of this very call fail; exp (optional): the expiry time     *)
+(*                        (unix seconds) the create response acknowledged, 0 = none             *)
 (*   Call [p, op = "Delete", c, id]  /  Ret [p, op = "Delete", ok]                             *)
 (*   Call [p, op = "Update", id, st] /  Ret [p, op = "Update", ok]   st = inactive | expired   *)
 (*   Call [p, op = "List", c]       /  Ret [p, op = "List", ok]     (the client lists its mappings) *)
-(*   Call [p, op = "Lookup", host, name, sp]     a request with Host header `host`; name = the *)
-(*                        canonical domain that spelling denotes ("" if it is not a domain      *)
-(*                        name, e.g. an IPv6 literal); sp = spelling class                      *)
+(*   Call [p, op = "Lookup", host, name, sp, now]  a request with Host header `host`; name =   *)
+(*                        the canonical domain that spelling denotes ("" if it is not a domain  *)
+(*                        name, e.g. an IPv6 literal); sp = spelling class; now (optional) =    *)
+(*                        the clock (unix seconds, the code's own clock) when the call was made *)
 (*   Ret  [p, op = "Lookup", routed, c, tp, code]  the proxy forwarded it to client c, target  *)
 (*                        port tp, or answered with HTTP status `code`                          *)
-(*   LegCreate [lid, c, name, tp] / LegDelete [lid]   legacy (management API) HTTP mapping     *)
+(*   LegCreate [lid, c, name, tp, st] / LegDelete [lid]   legacy (management API) HTTP mapping;*)
+(*                        st (optional) = active | inactive | expired | revoked                 *)
 (*   Final [index, recs, lists]     quiescent store: <<name, id>>, <<id, c, name, tp>>, <<c, id>> *)
 (* p identifies one API call.  Concurrent calls may linearize either way: every clause below  *)
 (* is violated only if NO placement of the linearization points inside the call intervals      *)
@@ -27,8 +30,8 @@ EXTENDS VLib
 VARIABLES cr,    \* tp -> [c, name, raw, call, ret, ok, id]        create calls (ret = 0: running)
           dl,    \* set of [p, c, id, call, ret, ok]                 delete calls
           up,    \* set of [p, id, st, call, ret, ok]                update calls
-          lk,    \* p -> [host, name, sp, call]                      running lookups
-          leg    \* lid -> [c, name, tp, call, del]                  legacy mappings (del = 0: exists)
+          lk,    \* p -> [host, name, sp, call, now]                 running lookups
+          leg    \* lid -> [c, name, tp, call, del, st]              legacy mappings (del = 0: exists)
 vars == <<l, viol, cr, dl, up, lk, leg>>
 
 Empty == [x \in {} |-> 0]
@@ -36,6 +39,7 @@ Init == l = 1 /\ viol = {} /\ cr = Empty /\ dl = {} /\ up = {} /\ lk = Empty /\ 
 
 Put(f, k, v) == [x \in DOMAIN f \cup {k} |-> IF x = k THEN v ELSE f[x]]
 Elems(s) == {s[i] : i \in 1..Len(s)}
+Opt(e, f, d) == IF f \in DOMAIN e THEN e[f] ELSE d      \* optional event field
 
 \* owner delete calls of the mapping created by create call t (its id is known once it returned ok)
 OwnerDels(t) == {d \in dl : cr[t].ok /\ d.id = cr[t].id /\ d.c = cr[t].c}
@@ -50,7 +54,7 @@ LiveLegacy(n) == {x \in DOMAIN leg : leg[x].name = n /\ leg[x].del = 0}
 TrCall ==
   /\ Is("Call")
   /\ CASE Ev.op = "Create" ->
-            /\ cr' = Put(cr, Ev.tp, [c |-> Ev.c, name |-> Ev.name, raw |-> Ev.raw, call |-> l, ret |-> 0, ok |-> FALSE, id |-> "", p |-> Ev.p])
+            /\ cr' = Put(cr, Ev.tp, [c |-> Ev.c, name |-> Ev.name, raw |-> Ev.raw, call |-> l, ret |-> 0, ok |-> FALSE, id |-> "", p |-> Ev.p, exp |-> 0, faulted |-> FALSE])
             /\ UNCHANGED <<dl, up, lk>>
        [] Ev.op = "Delete" ->
             /\ dl' = dl \cup {[p |-> Ev.p, c |-> Ev.c, id |-> Ev.id, call |-> l, ret |-> 0, ok |-> FALSE]}
@@ -60,7 +64,7 @@ TrCall ==
             /\ UNCHANGED <<cr, dl, lk>>
        [] Ev.op = "List" -> UNCHANGED <<cr, dl, up, lk>>       \* a listing: nothing is demanded of its result
        [] OTHER ->
-            /\ lk' = Put(lk, Ev.p, [host |-> Ev.host, name |-> Ev.name, sp |-> Ev.sp, call |-> l])
+            /\ lk' = Put(lk, Ev.p, [host |-> Ev.host, name |-> Ev.name, sp |-> Ev.sp, call |-> l, now |-> Opt(Ev, "now", 0)])
             /\ UNCHANGED <<cr, dl, up>>
   /\ l' = l + 1 /\ UNCHANGED <<viol, leg>>
 
@@ -101,12 +105,17 @@ LookupViol(q, e) ==
          ELSE (IF SurelyDeletedBefore(t, c0) THEN {V("RouteAfterDelete", "repository:" \o q.sp)} ELSE {})
               \cup (IF SurelyRolledBackBefore(t, c0) THEN {V("RouteAfterRollback", q.sp)} ELSE {})
               \cup {V("InactiveRoutes", u.st) : u \in DeactivatedBefore(t, c0)}
+              \* the create response acknowledged an expiry time and the clock had passed it when the request was made
+              \* (unstored-expiry: the driver made a storage operation of that create fail - the acknowledged time never reached the store)
+              \cup (IF cr[t].exp # 0 /\ q.now > cr[t].exp THEN {V("InactiveRoutes", (IF cr[t].faulted THEN "expired-ttl:unstored-expiry:" ELSE "expired-ttl:") \o q.sp)} ELSE {})
   ELSE IF \E x \in DOMAIN leg : leg[x].tp = e.tp THEN
          LET x == CHOOSE y \in DOMAIN leg : leg[y].tp = e.tp IN
          IF leg[x].c # e.c THEN {V("WrongOwner", "client-mismatch:" \o q.sp)}
          ELSE IF leg[x].name # q.name THEN {V("WrongOwner", "other-name:" \o q.sp)}
          ELSE IF leg[x].del # 0 /\ leg[x].del < c0 THEN {V("RouteAfterDelete", "legacy-registry-cache")}
-         ELSE \* the name has a repository owner (created before the lookup began, never the target of an owner delete):
+         ELSE \* a legacy mapping that is inactive / revoked / expired does not route either
+              (IF leg[x].st # "active" THEN {V("InactiveRoutes", "legacy:" \o leg[x].st)} ELSE {}) \cup
+              \* the name has a repository owner (created before the lookup began, never the target of an owner delete):
               \* the request belongs to that mapping - routed to it, or rejected if it is inactive / expired - never to the
               \* legacy mapping of the same name
               {V("WrongOwner", "legacy-shadows-repository-owner:" \o (IF DeactivatedBefore(t, c0) # {} THEN "inactive-or-expired" ELSE "active")
@@ -126,7 +135,7 @@ TrRet ==
   /\ CASE Ev.op = "Create" ->
             LET t == CHOOSE x \in DOMAIN cr : cr[x].p = Ev.p /\ cr[x].ret = 0 IN
             /\ viol' = viol \cup (IF Ev.ok THEN CreateViol(t, Ev.id) ELSE IF Ev.faulted THEN {} ELSE RefusedViol(t))
-            /\ cr' = [cr EXCEPT ![t].ret = l, ![t].ok = Ev.ok, ![t].id = Ev.id]
+            /\ cr' = [cr EXCEPT ![t].ret = l, ![t].ok = Ev.ok, ![t].id = Ev.id, ![t].exp = Opt(Ev, "exp", 0), ![t].faulted = Ev.faulted]
             /\ UNCHANGED <<dl, up, lk>>
        [] Ev.op = "Delete" ->
             LET d == CHOOSE x \in dl : x.p = Ev.p /\ x.ret = 0 IN
@@ -145,7 +154,7 @@ TrRet ==
 
 TrLegCreate ==
   /\ Is("LegCreate")
-  /\ leg' = Put(leg, Ev.lid, [c |-> Ev.c, name |-> Ev.name, tp |-> Ev.tp, call |-> l, del |-> 0])
+  /\ leg' = Put(leg, Ev.lid, [c |-> Ev.c, name |-> Ev.name, tp |-> Ev.tp, call |-> l, del |-> 0, st |-> Opt(Ev, "st", "active")])
   /\ viol' = viol \cup {V("OneOwner", "cross-source:legacy-claims-repo-name:" \o (IF cr[t].c = Ev.c THEN "same-client" ELSE "other-client")) :
                            t \in {x \in DOMAIN cr : cr[x].ok /\ cr[x].name = Ev.name /\ OwnerDels(x) = {}}}
                   \cup {V("OneOwner", "legacy:second-claim:" \o (IF leg[x].c = Ev.c THEN "same-client" ELSE "other-client")) : x \in LiveLegacy(Ev.name)}
